@@ -1455,7 +1455,7 @@ impl SvgElement {
         }
     }
 
-    fn resolve_size_delta(&mut self) {
+    pub(crate) fn resolve_size_delta(&mut self) {
         // assumes "width"/"height"/"r"/"rx"/"ry" are numeric if present
         let num = |el: &Self, name: &str| el.get_attr(name).and_then(|v| strp(&v).ok());
         // (a circle or an ellipse can be sized by width / height as well as by radius)
